@@ -79,10 +79,10 @@ def rand_op(rng, g, D, corr, nimg=1):
     outside the known defects (those are probed separately by the oracle)"""
     n = [int(v) for v in g.size()]
     frac = any(abs(float(v) - round(float(v))) > 1e-6 for v in g._size)
-    kinds = ["resize", "down", "down", "up", "resample", "crop", "pad", "center_crop", "center_pad", "narrow", "pool", "conv", "crop", "pad"]
+    kinds = ["resize", "down", "down", "down_neg", "up", "resample", "crop", "pad", "center_crop", "center_pad", "narrow", "pool", "conv", "crop", "pad"]
     kinds += ["roi", "conv_nd"]
     if not corr:
-        kinds += ["pyr", "sample"]
+        kinds += ["pyr", "sample", "sample"]
     k = rng.choice(kinds)
     ac = rng.choice([None, True, False])
     if k == "resize":
@@ -92,6 +92,11 @@ def rand_op(rng, g, D, corr, nimg=1):
             return {"op": "resize", "size": [rng.randint(2, 7) for _ in range(D)], "ac": ac}
         return {"op": k, "levels": 1, "min_size": 0, "ac": ac, "sigma": rng.choice([0, 0, None]),
                 "dims": None if rng.random() < .7 else sorted(rng.sample(range(D), rng.randint(1, D)))}
+    if k == "down_neg":   # downsample(levels < 0) is upsampling: data redirected to core.image.upsample, grid to Grid._resize
+        if frac or max(n) > 6:
+            return {"op": "resize", "size": [rng.randint(2, 7) for _ in range(D)], "ac": ac}
+        return {"op": "down", "levels": -1, "min_size": 0, "ac": ac, "sigma": rng.choice([0, None]),
+                "dims": None if rng.random() < .6 else sorted(rng.sample(range(D), rng.randint(1, D)))}
     if k == "up":
         if frac or max(n) > 6:
             return {"op": "resize", "size": [rng.randint(2, 7) for _ in range(D)], "ac": ac}
@@ -176,11 +181,13 @@ def rand_op(rng, g, D, corr, nimg=1):
     raise KeyError(k)
 
 
-def make_batch(rng, D, nimg, ramp):
+def make_batch(rng, D, nimg, ramp, near=False):
     gds = [rand_grid(rng, D)]
     for _ in range(nimg - 1):
         gd = rand_grid(rng, D)
         gd["size"], gd["spacing"], gd["align_corners"] = gds[0]["size"], gds[0]["spacing"], gds[0]["align_corners"]
+        if near:  # different orientation / position, but overlapping domains (a shared target grid lies inside every image)
+            gd["center"] = [c + rng.choice([-0.75, -0.25, 0.5, 1.0]) for c in gds[0]["center"]]
         gds.append(gd)
     grids = [mk(gd) for gd in gds]
     A = [rng.randint(-8, 8) / 4 for _ in range(D)]
@@ -227,7 +234,7 @@ def gen_chains(p):
 
 def kernel_of(op):
     """taps of the Gaussian used by downsample with the default sigma (oracle values for the model)"""
-    if op["op"] == "down" and op.get("sigma", 0) is None:
+    if op["op"] == "down" and op["levels"] > 0 and op.get("sigma", 0) is None:
         return [float(v) for v in gaussian1d(0.7355, dtype=torch.float)]
     return []
 
@@ -296,7 +303,7 @@ def oracle(p):
     for it in range(p["n"]):
         D = 2 if rng.random() < .6 else 3
         nimg = 1 if rng.random() < .6 else 2
-        gds, grids, data, A, b0 = make_batch(rng, D, nimg, True)
+        gds, grids, data, A, b0 = make_batch(rng, D, nimg, True, near=rng.random() < .7)
         rnd = torch.tensor([rng.randint(-32, 32) / 4 for _ in range(data.numel())], dtype=torch.float64).reshape(data.shape)
         b = ImageBatch(data, grids)
         m = ImageBatch(torch.ones_like(data), grids)
@@ -394,6 +401,35 @@ def oracle(p):
             except Exception as e:  # noqa
                 fail(f"C04:FlowFields:raises:{type(e).__name__}", f"raises {type(e).__name__}: {str(e)[:140]}", grids=gds)
 
+    # sampling a batch whose images lie on DIFFERENT grids on one shared target grid (also a target equal to the grid of
+    # image 0): every entry must be that image sampled alone on the target
+    for it in range(max(6, p["n"] // 10)):
+        D = 2 if it % 3 else 3
+        try:
+            gds, grids, data, A, b0 = make_batch(rng, D, 2 + it % 2, True, near=True)
+            b = ImageBatch(data, grids)
+            tgs = [("shared-target", mk(dict(rand_grid(rng, D), center=[float(v) + 0.25 for v in grids[0].center()]))),
+                   ("target-is-grid-of-image-0", grids[0])]
+            for tname, tg in tgs:
+                out = b.sample(tg, padding="zeros")
+                counts["probes"] += 1
+                if not isinstance(out, ImageBatch) or out.shape[0] != b.shape[0] or len(out.grids()) != b.shape[0] or \
+                        not all(g_ == tg for g_ in out.grids()) or tuple(out.shape[2:]) != tuple(tg.shape):
+                    fail(f"C04:ImageBatch.sample:{tname}:per-image-grids:result", "result is not a batch of N images on the target grid",
+                         grids=gds, target=state(tg))
+                    continue
+                for k in range(b.shape[0]):
+                    one = Image(data[k], grids[k]).sample(tg, padding="zeros")
+                    one_t = one.tensor().double() if isinstance(one, Image) else one.double()
+                    if not bool(((out.tensor().double()[k] - one_t).abs() <= 1e-4 * (1 + float(data.abs().max()))).all()):
+                        fail(f"C04:ImageBatch.sample:{tname}:per-image-grids", f"batch entry {k} is not image {k} sampled on the target grid "
+                             f"(max difference {float((out.tensor().double()[k] - one_t).abs().max()):.4g})", grids=gds, target=state(tg))
+                        break
+                # and it is the ramp on the target grid where the target lies inside image k
+                mk_ = ImageBatch(torch.ones_like(data), grids).sample(tg, padding="zeros")
+                check_stage(fail, f"ImageBatch.sample:{tname}", out, mk_, A, b0, dict(grids=gds, target=state(tg)), 1e-4 * (float(data.abs().max()) + 1))
+        except Exception as e:  # noqa
+            fail(f"C04:ImageBatch.sample:per-image-grids:raises:{type(e).__name__}", f"raises {type(e).__name__}: {str(e)[:140]}")
     # dedicated probes of argument forms the random stream avoids
     counts["probes"] += 1
     g2 = Grid(size=(6, 4), spacing=(1.0, 1.0), center=(0.0, 0.0))
